@@ -144,6 +144,11 @@ namespace Pistache::Tcp
                         auto it = toWrite.find(fd);
                         if (it == std::end(toWrite))
                         {
+                            // While the input of the same event was handled, the
+                            // handler may have flushed everything that was pending
+                            if (readable)
+                                continue;
+
                             throw std::runtime_error(
                                 "Assertion Error: could not find write data");
                         }
